@@ -22,4 +22,7 @@ for d in sorted(glob.glob(os.path.join(ROOT, "seeded", "*"))):
             mm = re.search(r"replays/%s-(.*?)-\d+\.json" % p, out)
             v = "VIOLATION with replay (%s)" % (mm.group(1) if mm else "?")
         res.append("%s: %s" % (p, v))
-    print("| `%s` | %s | %s | %s |" % (os.path.basename(d), m.get("breaks_property"), "yes" if m.get("confirmed") else "NO", "; ".join(res)))
+    conf = "yes" if m.get("confirmed") else "NO"
+    if m.get("obsolete_after"):
+        conf += " (at the commit it was written for; obsolete after %s)" % m["obsolete_after"]
+    print("| `%s` | %s | %s | %s |" % (os.path.basename(d), m.get("breaks_property"), conf, "; ".join(res)))
